@@ -1639,20 +1639,27 @@ fn soak_once(millis: u64, readers: usize, round: u64) -> (usize, u64, usize) {
                 let view = view.clone();
                 let (stop, reads) = (&stop, &reads);
                 s.spawn(move || {
+                    // bounded, with pauses: dashmap's shard lock prefers readers, so readers spinning on
+                    // one shard would starve the committer's write lock for as long as they spin
                     let mut i = r as u64;
-                    while !stop.load(Ordering::Relaxed) {
+                    let mut n = 0u64;
+                    while !stop.load(Ordering::Relaxed) && n < 400_000 {
                         let _ = view.storage(v, U256::from(i % 8)).unwrap();
                         if i % 16 == 0 {
                             let _ = view.basic(v).unwrap();
                         }
+                        if n % 4 == 0 {
+                            std::thread::yield_now();
+                        }
                         i += 1;
+                        n += 1;
                     }
-                    reads.fetch_add(i, Ordering::Relaxed);
+                    reads.fetch_add(n, Ordering::Relaxed);
                 });
             }
             let t0 = std::time::Instant::now();
             let mut n = 0u64;
-            while t0.elapsed().as_millis() < millis as u128 {
+            while t0.elapsed().as_millis() < millis as u128 && n < 2_000 {
                 let e = cop(n);
                 commit.commit(evm_state(std::slice::from_ref(&e)));
                 log.push(e);
